@@ -403,6 +403,10 @@ func (w *Walker) evalCall(call *ast.CallExpr, st *State, nres int) []callRes {
 	if fn := w.staticCallee(call); fn != nil {
 		return w.callInternal(call, fn, st, nres)
 	}
+	// call through an entry of a constant dispatch table: a static call per entry
+	if rs, ok := w.tableCall(call, fun, st, nres); ok {
+		return rs
+	}
 	// call through a struct field holding a func (Config callbacks)
 	if sel, ok := fun.(*ast.SelectorExpr); ok {
 		if s := w.info.Selections[sel]; s != nil && s.Kind() == types.FieldVal {
@@ -469,6 +473,63 @@ func (w *Walker) evalCall(call *ast.CallExpr, st *State, nres int) []callRes {
 		out = append(out, callRes{s, res})
 	}
 	return out
+}
+
+// tableCall handles h.handle(args), h(args) and tbl[k](args) where the callee comes from a constant dispatch table.
+func (w *Walker) tableCall(call *ast.CallExpr, fun ast.Expr, st *State, nres int) ([]callRes, bool) {
+	if w.Fn.Pkg.PkgPath != modPath || w.A.entryOf == nil && w.A.tables == nil {
+		w.A.findTables()
+	}
+	var fts []evalRes
+	switch f := fun.(type) {
+	case *ast.SelectorExpr:
+		if s := w.info.Selections[f]; s == nil || s.Kind() != types.FieldVal {
+			return nil, false
+		}
+		if _, isFunc := w.info.TypeOf(f).Underlying().(*types.Signature); !isFunc {
+			return nil, false
+		}
+		fts = w.eval(f, st)
+	case *ast.Ident:
+		if _, isVar := w.info.Uses[f].(*types.Var); !isVar {
+			return nil, false
+		}
+		fts = w.eval(f, st)
+	case *ast.IndexExpr:
+		if tr, ok := w.tableLookup(f, st); ok {
+			for _, r := range tr {
+				fts = append(fts, evalRes{r.st, r.val})
+			}
+		} else {
+			return nil, false
+		}
+	default:
+		return nil, false
+	}
+	var out []callRes
+	for _, ft := range fts {
+		var fe ast.Expr
+		if e, ok := w.A.fnExprOf[ft.t.S]; ok {
+			fe = e
+		} else if e, ok := w.A.entryOf[ft.t.S]; ok && e.fn != nil {
+			fe = e.fn
+		}
+		if fe == nil {
+			if len(fts) == 1 {
+				return nil, false // not a table entry: the generic handling applies
+			}
+			// the "no such key" value of a table of functions: calling it would panic
+			w.undecided(call, "call through a missing entry of a dispatch table")
+			continue
+		}
+		target, methodExpr := w.resolveFuncExpr(fe)
+		if target == nil {
+			w.undecided(call, "dispatch table entry is not a module function")
+			continue
+		}
+		out = append(out, w.callInternalShift(call, target, ft.st, nres, methodExpr)...)
+	}
+	return out, true
 }
 
 func manyFresh(n int) []*Term {
@@ -662,7 +723,20 @@ func (w *Walker) builtin(name string, call *ast.CallExpr, st *State) []callRes {
 
 // callInternal handles a static call to a function of the module.
 func (w *Walker) callInternal(call *ast.CallExpr, fn *FuncInfo, st *State, nres int) []callRes {
+	return w.callInternalShift(call, fn, st, nres, false)
+}
+
+// callInternalShift: as callInternal; with methodExpr the first argument is the receiver (T.method(recv, args...)).
+func (w *Walker) callInternalShift(call *ast.CallExpr, fn *FuncInfo, st *State, nres int, methodExpr bool) []callRes {
 	recvs, args, sts := w.evalCallOperands(call, st)
+	if methodExpr {
+		for i := range args {
+			if len(args[i]) > 0 {
+				recvs[i] = args[i][0]
+				args[i] = args[i][1:]
+			}
+		}
+	}
 	var out []callRes
 	for i, s := range sts {
 		id := "fn:" + fn.Name
